@@ -86,3 +86,12 @@ Theorem C19_key_dm14_keeps_running : forall c s sa sd d0 d1 a0 a1 a2 a3 k0 k1,
   exists cmd ad pt l oc acc, os = [SProceedFn cmd ad pt l oc (k1 * 256 + k0) sa acc sd; SNotify].
 Proof. exact key_dm14_right_key. Qed.
 Print Assumptions C19_key_dm14_keeps_running.
+
+(* the second mechanism: while the node is itself querying (facade WAIT_QUERY during its own read()/write()), ANY DM14 of
+   at least 2 bytes, from anybody, is answered with exactly one 'operation failed / busy' DM15 to its sender; nothing
+   changes and nothing reaches the application *)
+Theorem C19_querying_node_answers_busy : forall c s x data,
+  a_state s = D_WAIT_QUERY -> v_busy s = false -> 6 <= v_length s -> (2 <= length data)%nat ->
+  exists d, listen_for_dm14 c s PGN_DM14 x data = (s, [SSend 216 (Z.land x 255) 6 d], None).
+Proof. exact querying_node_answers_busy. Qed.
+Print Assumptions C19_querying_node_answers_busy.
